@@ -247,6 +247,34 @@ def _cast_to(schema):
     return "INT32" if schema.attributes["to"].type == onnx.defs.OpSchema.AttrType.STRING else int(onnx.TensorProto.INT32)
 
 
+class _TA:
+    """A TENSOR attribute value and the way the caller spells it in the eager call: 'proto' (TensorProto), 'ndarray',
+    'npscalar' (rank 0 only) or 'tensor' (an eager onnxscript Tensor, e.g. the result of a previous eager op).  The bare
+    node always carries numpy_helper.from_array(arr): element type and payload must arrive unchanged."""
+
+    def __init__(self, arr, form):
+        self.arr, self.form = np.asarray(arr), form
+
+    def proto(self):
+        import onnx
+
+        return onnx.numpy_helper.from_array(self.arr, "value")
+
+    def eager(self):
+        if self.form == "proto":
+            return self.proto()
+        if self.form == "npscalar":
+            return self.arr[()]
+        if self.form == "tensor":
+            from onnxscript import tensor
+
+            return tensor.Tensor(self.arr)
+        return self.arr
+
+    def __repr__(self):
+        return f"<{self.arr.dtype}{list(self.arr.shape)} as {self.form}>"
+
+
 def _E(inputs, nout=1, op=None, domain="", **attrs):
     return {"inputs": inputs, "nout": nout, "op": op, "domain": domain, "attrs": attrs}
 
@@ -386,6 +414,69 @@ EXEC_TABLE = {
     "Less": _E(lambda: [_f(3), _f(3, seed=1)], broadcast=0),
     "And": _E(lambda: [np.array([True, False, True]), np.array([True, True, False])], broadcast=0),
     "ConstantOfShape": _E(lambda: [_i64(2, 3)]),
+    "Constant_value_float64_proto": _E(lambda: [], op="Constant", value=_TA(np.array([0.1, -2.5, 1e-9], dtype=np.float64), "proto")),
+    "Constant_value_float64_ndarray": _E(lambda: [], op="Constant", value=_TA(np.array([0.1, -2.5, 1e-9], dtype=np.float64), "ndarray")),
+    "Constant_value_float64_tensor": _E(lambda: [], op="Constant", value=_TA(np.array([0.1, -2.5, 1e-9], dtype=np.float64), "tensor")),
+    "Constant_value_float64_rank0_npscalar": _E(lambda: [], op="Constant", value=_TA(np.array(0.1, dtype=np.float64), "npscalar")),
+    "Constant_value_float64_rank0_ndarray": _E(lambda: [], op="Constant", value=_TA(np.array(0.1, dtype=np.float64), "ndarray")),
+    "ConstantOfShape_value_float64_proto": _E(lambda: [_i64(2, 3)], op="ConstantOfShape", value=_TA(np.array([0.1], dtype=np.float64), "proto")),
+    "ConstantOfShape_value_float64_ndarray": _E(lambda: [_i64(2, 3)], op="ConstantOfShape", value=_TA(np.array([0.1], dtype=np.float64), "ndarray")),
+    "ConstantOfShape_value_float64_tensor": _E(lambda: [_i64(2, 3)], op="ConstantOfShape", value=_TA(np.array([0.1], dtype=np.float64), "tensor")),
+    "Constant_value_float16_proto": _E(lambda: [], op="Constant", value=_TA(np.array([0.1, -2.5, 3.0], dtype=np.float16), "proto")),
+    "Constant_value_float16_ndarray": _E(lambda: [], op="Constant", value=_TA(np.array([0.1, -2.5, 3.0], dtype=np.float16), "ndarray")),
+    "Constant_value_float16_tensor": _E(lambda: [], op="Constant", value=_TA(np.array([0.1, -2.5, 3.0], dtype=np.float16), "tensor")),
+    "Constant_value_float16_rank0_npscalar": _E(lambda: [], op="Constant", value=_TA(np.array(0.1, dtype=np.float16), "npscalar")),
+    "Constant_value_float16_rank0_ndarray": _E(lambda: [], op="Constant", value=_TA(np.array(0.1, dtype=np.float16), "ndarray")),
+    "ConstantOfShape_value_float16_proto": _E(lambda: [_i64(2, 3)], op="ConstantOfShape", value=_TA(np.array([0.1], dtype=np.float16), "proto")),
+    "ConstantOfShape_value_float16_ndarray": _E(lambda: [_i64(2, 3)], op="ConstantOfShape", value=_TA(np.array([0.1], dtype=np.float16), "ndarray")),
+    "ConstantOfShape_value_float16_tensor": _E(lambda: [_i64(2, 3)], op="ConstantOfShape", value=_TA(np.array([0.1], dtype=np.float16), "tensor")),
+    "Constant_value_float32_proto": _E(lambda: [], op="Constant", value=_TA(np.array([0.1, -2.5, 3.0], dtype=np.float32), "proto")),
+    "Constant_value_float32_ndarray": _E(lambda: [], op="Constant", value=_TA(np.array([0.1, -2.5, 3.0], dtype=np.float32), "ndarray")),
+    "Constant_value_float32_tensor": _E(lambda: [], op="Constant", value=_TA(np.array([0.1, -2.5, 3.0], dtype=np.float32), "tensor")),
+    "Constant_value_float32_rank0_npscalar": _E(lambda: [], op="Constant", value=_TA(np.array(0.1, dtype=np.float32), "npscalar")),
+    "Constant_value_float32_rank0_ndarray": _E(lambda: [], op="Constant", value=_TA(np.array(0.1, dtype=np.float32), "ndarray")),
+    "ConstantOfShape_value_float32_proto": _E(lambda: [_i64(2, 3)], op="ConstantOfShape", value=_TA(np.array([0.1], dtype=np.float32), "proto")),
+    "ConstantOfShape_value_float32_ndarray": _E(lambda: [_i64(2, 3)], op="ConstantOfShape", value=_TA(np.array([0.1], dtype=np.float32), "ndarray")),
+    "ConstantOfShape_value_float32_tensor": _E(lambda: [_i64(2, 3)], op="ConstantOfShape", value=_TA(np.array([0.1], dtype=np.float32), "tensor")),
+    "Constant_value_int32_proto": _E(lambda: [], op="Constant", value=_TA(np.array([1, -2, 300], dtype=np.int32), "proto")),
+    "Constant_value_int32_ndarray": _E(lambda: [], op="Constant", value=_TA(np.array([1, -2, 300], dtype=np.int32), "ndarray")),
+    "Constant_value_int32_tensor": _E(lambda: [], op="Constant", value=_TA(np.array([1, -2, 300], dtype=np.int32), "tensor")),
+    "Constant_value_int32_rank0_npscalar": _E(lambda: [], op="Constant", value=_TA(np.array(1, dtype=np.int32), "npscalar")),
+    "Constant_value_int32_rank0_ndarray": _E(lambda: [], op="Constant", value=_TA(np.array(1, dtype=np.int32), "ndarray")),
+    "ConstantOfShape_value_int32_proto": _E(lambda: [_i64(2, 3)], op="ConstantOfShape", value=_TA(np.array([1], dtype=np.int32), "proto")),
+    "ConstantOfShape_value_int32_ndarray": _E(lambda: [_i64(2, 3)], op="ConstantOfShape", value=_TA(np.array([1], dtype=np.int32), "ndarray")),
+    "ConstantOfShape_value_int32_tensor": _E(lambda: [_i64(2, 3)], op="ConstantOfShape", value=_TA(np.array([1], dtype=np.int32), "tensor")),
+    "Constant_value_int64_proto": _E(lambda: [], op="Constant", value=_TA(np.array([1, -2, 2**40], dtype=np.int64), "proto")),
+    "Constant_value_int64_ndarray": _E(lambda: [], op="Constant", value=_TA(np.array([1, -2, 2**40], dtype=np.int64), "ndarray")),
+    "Constant_value_int64_tensor": _E(lambda: [], op="Constant", value=_TA(np.array([1, -2, 2**40], dtype=np.int64), "tensor")),
+    "Constant_value_int64_rank0_npscalar": _E(lambda: [], op="Constant", value=_TA(np.array(1, dtype=np.int64), "npscalar")),
+    "Constant_value_int64_rank0_ndarray": _E(lambda: [], op="Constant", value=_TA(np.array(1, dtype=np.int64), "ndarray")),
+    "Constant_value_int8_proto": _E(lambda: [], op="Constant", value=_TA(np.array([1, -2, 100], dtype=np.int8), "proto")),
+    "Constant_value_int8_ndarray": _E(lambda: [], op="Constant", value=_TA(np.array([1, -2, 100], dtype=np.int8), "ndarray")),
+    "Constant_value_int8_tensor": _E(lambda: [], op="Constant", value=_TA(np.array([1, -2, 100], dtype=np.int8), "tensor")),
+    "Constant_value_int8_rank0_npscalar": _E(lambda: [], op="Constant", value=_TA(np.array(1, dtype=np.int8), "npscalar")),
+    "Constant_value_int8_rank0_ndarray": _E(lambda: [], op="Constant", value=_TA(np.array(1, dtype=np.int8), "ndarray")),
+    "Constant_value_uint8_proto": _E(lambda: [], op="Constant", value=_TA(np.array([1, 2, 200], dtype=np.uint8), "proto")),
+    "Constant_value_uint8_ndarray": _E(lambda: [], op="Constant", value=_TA(np.array([1, 2, 200], dtype=np.uint8), "ndarray")),
+    "Constant_value_uint8_tensor": _E(lambda: [], op="Constant", value=_TA(np.array([1, 2, 200], dtype=np.uint8), "tensor")),
+    "Constant_value_uint8_rank0_npscalar": _E(lambda: [], op="Constant", value=_TA(np.array(1, dtype=np.uint8), "npscalar")),
+    "Constant_value_uint8_rank0_ndarray": _E(lambda: [], op="Constant", value=_TA(np.array(1, dtype=np.uint8), "ndarray")),
+    "ConstantOfShape_value_uint8_proto": _E(lambda: [_i64(2, 3)], op="ConstantOfShape", value=_TA(np.array([1], dtype=np.uint8), "proto")),
+    "ConstantOfShape_value_uint8_ndarray": _E(lambda: [_i64(2, 3)], op="ConstantOfShape", value=_TA(np.array([1], dtype=np.uint8), "ndarray")),
+    "ConstantOfShape_value_uint8_tensor": _E(lambda: [_i64(2, 3)], op="ConstantOfShape", value=_TA(np.array([1], dtype=np.uint8), "tensor")),
+    "Constant_value_int16_proto": _E(lambda: [], op="Constant", value=_TA(np.array([1, -2, 300], dtype=np.int16), "proto")),
+    "Constant_value_int16_ndarray": _E(lambda: [], op="Constant", value=_TA(np.array([1, -2, 300], dtype=np.int16), "ndarray")),
+    "Constant_value_int16_tensor": _E(lambda: [], op="Constant", value=_TA(np.array([1, -2, 300], dtype=np.int16), "tensor")),
+    "Constant_value_int16_rank0_npscalar": _E(lambda: [], op="Constant", value=_TA(np.array(1, dtype=np.int16), "npscalar")),
+    "Constant_value_int16_rank0_ndarray": _E(lambda: [], op="Constant", value=_TA(np.array(1, dtype=np.int16), "ndarray")),
+    "Constant_value_bool_proto": _E(lambda: [], op="Constant", value=_TA(np.array([True, False, True], dtype=np.bool_), "proto")),
+    "Constant_value_bool_ndarray": _E(lambda: [], op="Constant", value=_TA(np.array([True, False, True], dtype=np.bool_), "ndarray")),
+    "Constant_value_bool_tensor": _E(lambda: [], op="Constant", value=_TA(np.array([True, False, True], dtype=np.bool_), "tensor")),
+    "Constant_value_bool_rank0_npscalar": _E(lambda: [], op="Constant", value=_TA(np.array(True, dtype=np.bool_), "npscalar")),
+    "Constant_value_bool_rank0_ndarray": _E(lambda: [], op="Constant", value=_TA(np.array(True, dtype=np.bool_), "ndarray")),
+    "ConstantOfShape_value_bool_proto": _E(lambda: [_i64(2, 3)], op="ConstantOfShape", value=_TA(np.array([True], dtype=np.bool_), "proto")),
+    "ConstantOfShape_value_bool_ndarray": _E(lambda: [_i64(2, 3)], op="ConstantOfShape", value=_TA(np.array([True], dtype=np.bool_), "ndarray")),
+    "ConstantOfShape_value_bool_tensor": _E(lambda: [_i64(2, 3)], op="ConstantOfShape", value=_TA(np.array([True], dtype=np.bool_), "tensor")),
     # ai.onnx.ml
     "ml.Binarizer": _E(_X34, op="Binarizer", domain="ai.onnx.ml", threshold=0.5),
     "ml.Scaler": _E(_X34, op="Scaler", domain="ai.onnx.ml", offset=[1.0], scale=[2.0]),
@@ -520,6 +611,12 @@ def check_exec(label, version, seed, evnames=("ort", "ref"), literal_on=("ort", 
     required = {k for k, a in schema.attributes.items() if a.required}
     if required - set(cand):
         return {"status": "skipped_required_attr", "events": {"exec_skipped_required_attr": 1}}
+    def bare_attrs(a):
+        return {k: (v.proto() if isinstance(v, _TA) else v) for k, v in a.items()}
+
+    def eager_attrs(a):
+        return {k: (v.eager() if isinstance(v, _TA) else v) for k, v in a.items()}
+
     forms = [("minimal", {k: v for k, v in cand.items() if k in required})]
     if set(cand) - required:
         forms.append(("explicit", dict(cand)))
@@ -548,17 +645,17 @@ def check_exec(label, version, seed, evnames=("ort", "ref"), literal_on=("ort", 
             # Precondition for both: ORT accepts the bare node (or merely lacks a kernel for it).
             fk = (form,)
             if fk not in ort_bare:
-                model, feeds = _bare_model(op, domain, version, inputs, nout, attrs)
+                model, feeds = _bare_model(op, domain, version, inputs, nout, bare_attrs(attrs))
                 ort_bare[fk] = _run_bare("ort", model, feeds)
             if evname == "ort":
                 st, bare = ort_bare[fk]
             elif ort_bare[fk][0] not in ("ok", "not_implemented"):
                 st, bare = "invalid_on_ort", ort_bare[fk][1]
             else:
-                model, feeds = _bare_model(op, domain, version, inputs, nout, _with_defaults(schema, attrs))
+                model, feeds = _bare_model(op, domain, version, inputs, nout, _with_defaults(schema, bare_attrs(attrs)))
                 st, bare = _run_bare(evname, model, feeds)
             # --- eager call, always: the model observation does not need the runtime to have a kernel
-            est, got, models = eager_call(meth, inputs, py(attrs), evname)
+            est, got, models = eager_call(meth, inputs, py(eager_attrs(attrs)), evname)
             if models:
                 hit("eager_models_seen")
                 hit(f"eager_models_seen_{evname}")
